@@ -25,6 +25,7 @@ CONSTANTS
   CreateFaults = FALSE
   ReadFaults = FALSE
   TTLRollback = TRUE
+  UpdFields = {"inactive", "expired"}
   LegStatus = {"active"}
   OnlyList = {}
   Emit = FALSE
